@@ -120,7 +120,7 @@ def run_c05(pid, tier, seed, replay=None):
                 if r.get("kind") == "unsafe":
                     ck.violation({"class": r["obs"].split(":")[0], "n": r["n"]}, r)
         nrand = _random_trace(ck, exe, wd, seed, 800 if tier == "quick" else 8000, "TraceC05")
-        # gradient refusal for tables with more dimensions than the SIMD layout supports is part of eval_driver (C02)
+        # tables of 3..9 dimensions incl. the gradient refusal clause are the last section of the safety driver (n = -D in its rows)
         ck.cov["traces_validated_against_impl"] = n + nrand
         ck.cov["distinct_nontrivial"] = n
         ck.cov["rule"] = ("finished states of the lookup machine (all gap patterns, all lattice positions, NaN, +-inf) executed through value, "
